@@ -59,6 +59,20 @@ Theorem C08_reward_index_is_ledger_rank : forall l x k, Forall wf_acct l ->
   position (fun y => bool_decide (y = x)) (sort_accts l) = Some k -> k = rank_by acct_ltb x l.
 Proof. exact reward_index_is_ledger_rank. Qed.
 
+(** every Reward redeemer of the witness set comes from a withdrawal directive with a redeemer,
+    carries that redeemer's data, and its index is the rank of the directive's own account in the
+    ledger's order of the body's reward accounts *)
+Theorem C08_reward_redeemers_point_at_account : forall mainnet addr_parse addr_of_string reward_of_addr t ws rs,
+  Forall wf_acct (map fst (from_option id [] ws)) ->
+  withdrawal_redeemers mainnet addr_parse addr_of_string reward_of_addr t ws = Ok rs ->
+  forall r, r ∈ rs ->
+  exists a red c cred d,
+    a ∈ withdrawal_directives t /\ data_get "redeemer" (ad_data a) = Some red /\ red <> ENone /\
+    data_get "credential" (ad_data a) = Some c /\ reward_account_of mainnet addr_parse addr_of_string reward_of_addr c = Ok cred /\
+    encode_redeemer red = Ok d /\
+    r = mk_ared 3 (Z.of_nat (rank_by acct_ltb cred (map fst (from_option id [] ws)))) d.
+Proof. exact withdrawal_redeemers_point_at_account. Qed.
+
 Print Assumptions C08_sorted_inputs_sorted.
 Print Assumptions C08_index_is_rank.
 Print Assumptions C08_sorted_inputs_perm.
@@ -68,3 +82,4 @@ Print Assumptions C08_mint_redeemer_points_at_policy.
 Print Assumptions C08_mint_redeemer_needs_policy.
 Print Assumptions C08_reward_accounts_sorted.
 Print Assumptions C08_reward_index_is_ledger_rank.
+Print Assumptions C08_reward_redeemers_point_at_account.
